@@ -67,3 +67,9 @@ Theorem C15_handler_denied_iff_denial : forall t r,
   In CDenied (micro (expected_mop t r)) <-> exists l rm rs rt, r = AOk false l rm rs rt.
 Proof. exact handler_denied_iff. Qed.
 Print Assumptions C15_handler_denied_iff_denial.
+
+(* the model's atomicity assumption holds of the source: every update of an atomic in metrics.rs (list re-extracted on
+   every run) is a fetch_add of 1 - no plain store, swap or recomputed total *)
+Theorem C15_counters_only_incremented_atomically : forall p, In p METRICS_ATOMIC_OPS -> snd p = "fetch_add(1)"%string.
+Proof. exact counters_only_incremented. Qed.
+Print Assumptions C15_counters_only_incremented_atomically.
